@@ -210,7 +210,8 @@ CHECKS = {
                    'type, executed on the real code; oracles: exactly-once, equality with what was set, Ready implies '
                    'readable, tracked-object ledger, allocation balance, ASan, library assertions',
         budget=dict(quick=150, thorough=1200),
-        runs=[mc('handoff', 'mc-asan', quick=dict(P=99), thorough=dict(P=99))],
+        runs=[mc('handoff', 'mc-asan', quick=dict(P=99), thorough=dict(P=99)),
+              mc('handoff', 'mc-hb', quick=dict(P=99), thorough=dict(P=99))],
         assumptions=[
             'FIBER backend instantiation of the library (same sources, yaclib_std mapped to the cooperative fibers)',
             'schedules differ only at synchronisation operations (atomic/mutex/cv/thread); plain accesses are covered by the happens-before monitor of C04',
